@@ -3,7 +3,11 @@
 
 package ice
 
-import "sync"
+import (
+	"sync"
+
+	"github.com/pion/ice/v4/internal/verifhook"
+)
 
 // OnConnectionStateChange sets a handler that is fired when the connection state changes.
 func (a *Agent) OnConnectionStateChange(f func(ConnectionState)) error {
@@ -67,6 +71,7 @@ type handlerNotifier struct {
 }
 
 func (h *handlerNotifier) Close(graceful bool) {
+	verifhook.Yield("notifier.Close.entry")
 	if graceful {
 		// if we were closed ungracefully before, we now
 		// want ot wait.
@@ -87,6 +92,7 @@ func (h *handlerNotifier) Close(graceful bool) {
 }
 
 func (h *handlerNotifier) EnqueueConnectionState(state ConnectionState) {
+	verifhook.Yield("notifier.EnqueueConnectionState.entry")
 	h.Lock()
 	defer h.Unlock()
 
@@ -99,6 +105,7 @@ func (h *handlerNotifier) EnqueueConnectionState(state ConnectionState) {
 	notify := func() {
 		defer h.notifiers.Done()
 		for {
+			verifhook.Yield("notifier.states.loopTop")
 			h.Lock()
 			if len(h.connectionStates) == 0 {
 				h.runningConnectionStates = false
@@ -109,11 +116,13 @@ func (h *handlerNotifier) EnqueueConnectionState(state ConnectionState) {
 			notification := h.connectionStates[0]
 			h.connectionStates = h.connectionStates[1:]
 			h.Unlock()
+			verifhook.Yield("notifier.states.beforeHandler")
 			h.connectionStateFunc(notification)
 		}
 	}
 
 	h.connectionStates = append(h.connectionStates, state)
+	verifhook.Note("enqueue.state", verifhook.Event{Src: h, V: state})
 	if !h.runningConnectionStates {
 		h.runningConnectionStates = true
 		h.notifiers.Add(1)
@@ -122,6 +131,7 @@ func (h *handlerNotifier) EnqueueConnectionState(state ConnectionState) {
 }
 
 func (h *handlerNotifier) EnqueueCandidate(cand Candidate) {
+	verifhook.Yield("notifier.EnqueueCandidate.entry")
 	h.Lock()
 	defer h.Unlock()
 
@@ -134,6 +144,7 @@ func (h *handlerNotifier) EnqueueCandidate(cand Candidate) {
 	notify := func() {
 		defer h.notifiers.Done()
 		for {
+			verifhook.Yield("notifier.candidates.loopTop")
 			h.Lock()
 			if len(h.candidates) == 0 {
 				h.runningCandidates = false
@@ -144,11 +155,13 @@ func (h *handlerNotifier) EnqueueCandidate(cand Candidate) {
 			notification := h.candidates[0]
 			h.candidates = h.candidates[1:]
 			h.Unlock()
+			verifhook.Yield("notifier.candidates.beforeHandler")
 			h.candidateFunc(notification)
 		}
 	}
 
 	h.candidates = append(h.candidates, cand)
+	verifhook.Note("enqueue.candidate", verifhook.Event{Src: h, V: cand})
 	if !h.runningCandidates {
 		h.runningCandidates = true
 		h.notifiers.Add(1)
@@ -157,6 +170,7 @@ func (h *handlerNotifier) EnqueueCandidate(cand Candidate) {
 }
 
 func (h *handlerNotifier) EnqueueSelectedCandidatePair(pair *CandidatePair) {
+	verifhook.Yield("notifier.EnqueueSelectedCandidatePair.entry")
 	h.Lock()
 	defer h.Unlock()
 
@@ -169,6 +183,7 @@ func (h *handlerNotifier) EnqueueSelectedCandidatePair(pair *CandidatePair) {
 	notify := func() {
 		defer h.notifiers.Done()
 		for {
+			verifhook.Yield("notifier.pairs.loopTop")
 			h.Lock()
 			if len(h.selectedCandidatePairs) == 0 {
 				h.runningCandidatePairs = false
@@ -179,11 +194,13 @@ func (h *handlerNotifier) EnqueueSelectedCandidatePair(pair *CandidatePair) {
 			notification := h.selectedCandidatePairs[0]
 			h.selectedCandidatePairs = h.selectedCandidatePairs[1:]
 			h.Unlock()
+			verifhook.Yield("notifier.pairs.beforeHandler")
 			h.candidatePairFunc(notification)
 		}
 	}
 
 	h.selectedCandidatePairs = append(h.selectedCandidatePairs, pair)
+	verifhook.Note("enqueue.pair", verifhook.Event{Src: h, V: pair})
 	if !h.runningCandidatePairs {
 		h.runningCandidatePairs = true
 		h.notifiers.Add(1)
